@@ -29,6 +29,10 @@ CLAIMED = {
          "Exploration by generated search over spellings (./ ../ // trailing slash, absolute/relative) on every call path that takes a template name.",
          "The recording wrappers are transparent; canonical resolution is re-implemented independently (own normaliser).",
          "DESIGN.md section 5/C15"),
+ "C16": ("property-based testing (rapid), model-based histories with fault injection: generated sequences of loader edits, injected loader faults, GetTemplate/Set.Parse/Execute under dev-mode x cache x extension-list configurations; oracle = must/may-remember model asserted on recorded Loader/Cache traces and template pointer identity",
+         "Exploration by generated histories (2-20 steps, 4 names, 4 extension lists): hit identity and loader silence, failures not cached, development mode always reloading and never storing, Set.Parse storing nothing, extension probe order from cold.",
+         "Faults are injected by a wrapping loader; 'maybe cached' templates carry no assertion until requested directly.",
+         "DESIGN.md section 5/C16"),
 }
 PENDING = {}
 
